@@ -242,27 +242,43 @@ def bonferroni_sweep(tier, seed):
         v1 = [rng.choice([0.0, 1.0, 2.0, 0.5]) for _ in range(k)]
         v2 = [x + rng.choice([0.0, 0.1, 1.0, 3.0, float('nan')]) for x in v1]
         e = [rng.choice([0.5, 1.0]) for _ in range(k)]
-        alpha = rng.choice((0.05, 0.01))
-        st = TestStudent(_ds(v1, e), _ds(v2, e), name='s', alpha=alpha, ndf=20)
+        alpha = rng.choice((0.05, 0.01, 0.5))
+        # the underlying test has its own level, independent of the correction's
+        alpha_s = rng.choice((alpha, alpha, 0.01, 0.001, 0.2))
+        st = TestStudent(_ds(v1, e), _ds(v2, e), name='s', alpha=alpha_s, ndf=20)
         rb = TestBonferroni(name='b', test=st, alpha=alpha).evaluate()
         rh = TestHolmBonferroni(name='h', test=st, alpha=alpha).evaluate()
         rs = st.evaluate()
         probs = []
+        pv = [float(x) for x in np.ravel(rs.pvalue[0])]
+        m = len(pv)
+        wantb = [(x <= (alpha / 2) / m) if not math.isnan(x) else True for x in pv]
+        gotb = np.ravel(rb.rejected_null_hyp[0]).tolist()
+        if gotb != wantb:
+            probs.append(f'Bonferroni flags {gotb} != p <= (alpha/2)/m {wantb} for p-values {pv}, alpha {alpha} (Student level {alpha_s})')
+        order = sorted(range(m), key=lambda i: (math.isnan(pv[i]), pv[i]))
+        wanth = [None] * m
+        for rank, i in enumerate(order, start=1):
+            wanth[i] = (pv[i] < (alpha / 2) / (m - rank + 1)) if not math.isnan(pv[i]) else True
+        goth = np.ravel(rh.rejected_null_hyp[0]).tolist()
+        if goth != wanth and not _holm_tie_ok(pv, goth, alpha / 2):
+            probs.append(f'Holm flags {goth} != rank rule {wanth} for p-values {pv}, alpha {alpha} (Student level {alpha_s})')
         for lab, r in (('Bonferroni', rb), ('Holm', rh)):
             flagged = bool(np.any([np.any(x) for x in r.rejected_null_hyp]))
             if bool(r) == flagged:
                 probs.append(f'{lab}: verdict {bool(r)} although flags = {[np.ravel(x).tolist() for x in r.rejected_null_hyp]}')
-            if bool(rs) and not bool(r):
+            if alpha_s == alpha and bool(rs) and not bool(r):
                 probs.append(f'{lab}: fails although the comparison passes bin by bin at the same level')
         if any(math.isnan(x) for x in v2) and (bool(rb) or bool(rh)):
             probs.append('a bin without a defined p-value was accepted')
         if probs:
-            fails.append({'input': {'v1': v1, 'v2': v2, 'e': e, 'alpha': alpha}, 'observed': probs[:3], 'expected': 'C06 oracle'})
+            fails.append({'input': {'v1': v1, 'v2': v2, 'e': e, 'alpha': alpha, 'student_alpha': alpha_s}, 'observed': probs[:3], 'expected': 'C06 oracle'})
             if len(fails) >= 8:
                 break
     return {'name': 'bonferroni-holm-native', 'evaluations': n, 'distinct': n, 'failures': fails[:8], 'exhaustive': False,
             'bound': 'seeded random p-value arrays of size 1-4 (incl. 2x2) from {0, 1, NaN, 0.5, 0.04, 0.05, 0.025, 0.01, 0.0125, 0.001} with ties, levels {0.05, 0.01, 0.5}: '
-                     'definitions of both corrections on the static methods; 1-3 bin Student comparisons through TestBonferroni / TestHolmBonferroni',
+                     'definitions of both corrections on the static methods; 1-3 bin Student comparisons through TestBonferroni / TestHolmBonferroni with an independent Student level '
+                     '(per-bin flags against the definitions applied to the underlying p-values)',
             'samples': [{'pvalues': [0.05, float('nan')], 'shape': [2], 'level': 0.05}]}
 
 
